@@ -271,46 +271,51 @@ KOut(R) == [fw |-> FwOut(R), bw |-> BwOut(R), bwh |-> BwHere(R)]
 
 K_Register(l) ==
     \* as at the call site (register_lane: a fresh lane id): no links exist for the lane yet
-    /\ LinkedFrom(Reg0, l) = {}
+    /\ Level = "K" /\ LinkedFrom(Reg0, l) = {}
     /\ LET R == RegisterReporter(Reg0, l) IN
        Commit([k |-> "reg", l |-> l] @@ KOut(R), R,
               [Same EXCEPT !.rdr[l] = TRUE, !.gone = @ \ {l}, !.lost = @ \ {l}], linked, {}, NoSend, 0, 0)
 
 K_Insert(l, r) ==
-    LET R == Insert(Reg0, l, r) IN
-    Commit([k |-> "ins", l |-> l, r |-> r] @@ KOut(R), R, Same, linked \cup {<<l, r>>}, {}, NoSend, 0, 0)
+    /\ Level = "K"
+    /\ LET R == Insert(Reg0, l, r) IN
+       Commit([k |-> "ins", l |-> l, r |-> r] @@ KOut(R), R, Same, linked \cup {<<l, r>>}, {}, NoSend, 0, 0)
 
 K_Remove(l, r) ==
-    LET d == Remove(Reg0, l, r) IN
-    Commit([k |-> "rem", l |-> l, r |-> r, tu |-> <<r, B2I(d.prune)>>] @@ KOut(d.R), d.R, Same,
+    /\ Level = "K"
+    /\ LET d == Remove(Reg0, l, r) IN
+       Commit([k |-> "rem", l |-> l, r |-> r, tu |-> <<r, B2I(d.prune)>>] @@ KOut(d.R), d.R, Same,
            linked \ {<<l, r>>}, {}, NoSend, 0, 0)
 
 K_RemoveRemote(r) ==
-    LET R == RemoveRemote(Reg0, r) IN
-    Commit([k |-> "remr", r |-> r] @@ KOut(R), R, Same, {p \in linked : p[2] # r}, {}, NoSend, 0, 0)
+    /\ Level = "K"
+    /\ LET R == RemoveRemote(Reg0, r) IN
+       Commit([k |-> "remr", r |-> r] @@ KOut(R), R, Same, {p \in linked : p[2] # r}, {}, NoSend, 0, 0)
 
 K_RemoveLane(l) ==
-    LET d == RemoveLane(Reg0, l)
-        tus == SelectSeq([r \in Remotes |-> <<r, B2I(r \in d.pruned)>>], LAMBDA x : x[1] \in d.rs)
-    IN Commit([k |-> "reml", l |-> l, tus |-> tus] @@ KOut(d.R), d.R, [Same EXCEPT !.gone = @ \cup {l}],
-              {p \in linked : p[1] # l}, {}, NoSend, 0, 0)
+    /\ Level = "K"
+    /\ LET d == RemoveLane(Reg0, l)
+           tus == SelectSeq([r \in Remotes |-> <<r, B2I(r \in d.pruned)>>], LAMBDA x : x[1] \in d.rs)
+       IN Commit([k |-> "reml", l |-> l, tus |-> tus] @@ KOut(d.R), d.R, [Same EXCEPT !.gone = @ \cup {l}],
+                 {p \in linked : p[1] # l}, {}, NoSend, 0, 0)
 
 K_RemoveAll ==
-    LET R == RemoveAll(Reg0)
-        all == [i \in 1..(NL * NR) |-> <<((i - 1) \div NR) + 1, ((i - 1) % NR) + 1>>]
-        pairs == SelectSeq(all, LAMBDA p : IsLinked(Reg0, p[1], p[2]))
-    IN Commit([k |-> "remall", pairs |-> pairs] @@ KOut(R), R, Same, {}, {}, NoSend, 0, 0)
+    /\ Level = "K"
+    /\ LET R == RemoveAll(Reg0)
+           all == [i \in 1..(NL * NR) |-> <<((i - 1) \div NR) + 1, ((i - 1) % NR) + 1>>]
+           pairs == SelectSeq(all, LAMBDA p : IsLinked(Reg0, p[1], p[2]))
+       IN Commit([k |-> "remall", pairs |-> pairs] @@ KOut(R), R, Same, {}, {}, NoSend, 0, 0)
 
 K_CountSingle(l) ==
     \* the call site (handle_event, targeted) counts one event that goes to one remote; the case
     \* "no forward entry" only arises at the call site (after F3a, or a lane without a reporter) and
     \* is covered at level W
-    /\ Counting /\ fwd[l].here
+    /\ Level = "K" /\ Counting /\ fwd[l].here
     /\ LET R == CountSingle(Reg0, l) IN
        Commit([k |-> "cs", l |-> l] @@ KOut(R), R, Same, linked, {}, [lane |-> l, n |-> 1, tol |-> 0], 0, 0)
 
 K_CountBroadcast(l) ==
-    /\ Counting
+    /\ Level = "K" /\ Counting
     /\ LET R == CountBroadcast(Reg0, l) IN
        Commit([k |-> "cb", l |-> l] @@ KOut(R), R, Same, linked, {},
               [lane |-> l, n |-> Cardinality(LinkedOf(linked, l)), tol |-> 0], 0, 0)
@@ -341,35 +346,39 @@ Finish(act, R, X, L0, newph, send, pcm, aMiss, written, rx) ==
     IN Commit(act @@ [rx |-> rxs, att |-> Mask(att1, NR), dc |-> dcs, lk |-> FwOut(R1)],
               R1, X1, L, newph, send, pcm, aMiss)
 
+Running == Level = "W" /\ ~stopped    \* after unlink_all the task only drains its writes and stops
 Known(l) == lanes[l] # "new"      \* the lane registry knows the name (it never forgets a failed lane)
 
 W_Lane(l) ==     \* WriteTaskState::register_lane(name, Some(reporter))
-    /\ lanes[l] = "new"
+    /\ Running /\ lanes[l] = "new"
     /\ Finish([k |-> "lane", l |-> l], RegisterReporter(Reg0, l),
               [Same EXCEPT !.rdr[l] = TRUE, !.lanes[l] = "up"], linked, {}, NoSend, 0, 0, {}, NoRx)
 
 W_Attach(r) ==   \* WriteTaskMessage::Remote
-    /\ r \notin att
+    /\ Running /\ r \notin att
     /\ Finish([k |-> "att", r |-> r], Reg0, [Same EXCEPT !.att = @ \cup {r}], linked, {}, NoSend, 0, 0, {}, NoRx)
 
 W_Link(r, l) ==  \* RwCoordinationMessage::Link
-    IF Known(l) /\ r \in att
-      THEN Finish([k |-> "link", r |-> r, l |-> l], Insert(Reg0, l, r), Same, linked \cup {<<l, r>>}, {},
-                  NoSend, 0, 0, {r}, Send(NoRx, r, <<"L", l>>))
-      ELSE Finish([k |-> "link", r |-> r, l |-> l], Reg0, Same, linked, {}, NoSend, 0, 0, {}, NoRx)
+    /\ Running
+    /\ IF Known(l) /\ r \in att
+         THEN Finish([k |-> "link", r |-> r, l |-> l], Insert(Reg0, l, r), Same, linked \cup {<<l, r>>}, {},
+                     NoSend, 0, 0, {r}, Send(NoRx, r, <<"L", l>>))
+         ELSE Finish([k |-> "link", r |-> r, l |-> l], Reg0, Same, linked, {}, NoSend, 0, 0, {}, NoRx)
 
 W_Unlink(r, l) ==  \* RwCoordinationMessage::Unlink
-    IF Known(l) /\ IsLinked(Reg0, l, r)
-      THEN Finish([k |-> "unlink", r |-> r, l |-> l], Remove(Reg0, l, r).R, Same, linked \ {<<l, r>>}, {},
-                  NoSend, 0, 0, {r}, IF r \in att THEN Send(NoRx, r, <<"U", l>>) ELSE NoRx)
-      ELSE Finish([k |-> "unlink", r |-> r, l |-> l], Reg0, Same, linked, {}, NoSend, 0, 0, {}, NoRx)
+    /\ Running
+    /\ IF Known(l) /\ IsLinked(Reg0, l, r)
+         THEN Finish([k |-> "unlink", r |-> r, l |-> l], Remove(Reg0, l, r).R, Same, linked \ {<<l, r>>}, {},
+                     NoSend, 0, 0, {r}, IF r \in att THEN Send(NoRx, r, <<"U", l>>) ELSE NoRx)
+         ELSE Finish([k |-> "unlink", r |-> r, l |-> l], Reg0, Same, linked, {}, NoSend, 0, 0, {}, NoRx)
 
 W_Unknown(r) ==  \* RwCoordinationMessage::UnknownLane: an `unlinked` for a lane that does not exist
-    Finish([k |-> "unk", r |-> r], Reg0, Same, linked, {}, NoSend, 0, 0, {r},
-           IF r \in att THEN Send(NoRx, r, <<"U", 0>>) ELSE NoRx)
+    /\ Running
+    /\ Finish([k |-> "unk", r |-> r], Reg0, Same, linked, {}, NoSend, 0, 0, {r},
+              IF r \in att THEN Send(NoRx, r, <<"U", 0>>) ELSE NoRx)
 
 W_EventTo(l, t) ==  \* handle_event, LaneData { target: Some(t), .. }
-    /\ lanes[l] = "up"
+    /\ Running /\ lanes[l] = "up"
     /\ LET here == t \in att
            act == [k |-> "ev", l |-> l, t |-> t]
        IN
@@ -394,7 +403,7 @@ W_EventTo(l, t) ==  \* handle_event, LaneData { target: Some(t), .. }
                      {t}, rx)
 
 W_Broadcast(l) ==   \* handle_event, LaneData { target: None, .. }
-    /\ lanes[l] = "up"
+    /\ Running /\ lanes[l] = "up"
     /\ LET ts == LinkedFrom(Reg0, l)
            act == [k |-> "ev", l |-> l, t |-> 0]
        IN
@@ -404,41 +413,42 @@ W_Broadcast(l) ==   \* handle_event, LaneData { target: None, .. }
                    ts, [r \in Remotes |-> IF r \in ts /\ r \in att THEN <<<<"E", l>>>> ELSE <<>>])
 
 W_Command(l) ==     \* read task: aggregate_reporter.count_commands(1); LaneSender::feed_frame counts on the lane's
-    /\ lanes[l] = "up"
+    /\ Running /\ lanes[l] = "up"
     /\ Finish([k |-> "cmd", l |-> l], [Reg0 EXCEPT !.cm[l] = 1, !.acm = 1], Same, linked, {}, NoSend, l, 0, {}, NoRx)
 
 W_Close(r) ==       \* the remote goes away; the write task will find out when it next writes to it
-    /\ r \in att /\ r \notin closed
+    /\ Running /\ r \in att /\ r \notin closed
     /\ Finish([k |-> "close", r |-> r], Reg0, [Same EXCEPT !.closed = @ \cup {r}], linked, {}, NoSend, 0, 0, {}, NoRx)
 
 W_Prune(r) ==       \* WriteTaskEvent::PruneRemote -> remove_remote_if_idle
-    IF ~bwd[r].here
-      THEN LET wasAtt == r \in att
-               R == RemoveRemote(Reg0, r)
-               X == [Same EXCEPT !.att = @ \ {r}, !.closed = @ \ {r}]
-           IN Commit([k |-> "prune", r |-> r, rx |-> NoRx, att |-> Mask(X.att, NR),
-                      dc |-> IF wasAtt THEN <<<<r, "timedout">>>> ELSE <<>>, lk |-> FwOut(R)],
-                     R, X, {p \in linked : p[2] # r}, {}, NoSend, 0, 0)
-      ELSE Finish([k |-> "prune", r |-> r], Reg0, Same, linked, {}, NoSend, 0, 0, {}, NoRx)
+    /\ Running
+    /\ IF ~bwd[r].here
+         THEN LET wasAtt == r \in att
+                  R == RemoveRemote(Reg0, r)
+                  X == [Same EXCEPT !.att = @ \ {r}, !.closed = @ \ {r}]
+              IN Commit([k |-> "prune", r |-> r, rx |-> NoRx, att |-> Mask(X.att, NR),
+                         dc |-> IF wasAtt THEN <<<<r, "timedout">>>> ELSE <<>>, lk |-> FwOut(R)],
+                        R, X, {p \in linked : p[2] # r}, {}, NoSend, 0, 0)
+         ELSE Finish([k |-> "prune", r |-> r], Reg0, Same, linked, {}, NoSend, 0, 0, {}, NoRx)
 
 W_LaneFailed(l) ==  \* WriteTaskEvent::LaneFailed -> remove_lane, one `unlinked` per remote
-    /\ lanes[l] = "up"
+    /\ Running /\ lanes[l] = "up"
     /\ LET d == RemoveLane(Reg0, l) IN
        Finish([k |-> "fail", l |-> l], d.R, [Same EXCEPT !.lanes[l] = "failed", !.gone = @ \cup {l}],
               {p \in linked : p[1] # l}, {}, NoSend, 0, 0, d.rs,
               [r \in Remotes |-> IF r \in d.rs /\ r \in att THEN <<<<"U", l>>>> ELSE <<>>])
 
 W_Stop ==           \* unlink_all (shutdown): remove_all_links, one `unlinked` per link
-    LET ps == FwdPairs(Reg0)
-        us(r) == SelectSeq([l \in Lanes |-> <<"U", l>>], LAMBDA f : <<f[2], r>> \in ps)
-    IN Finish([k |-> "stop"], RemoveAll(Reg0), [Same EXCEPT !.stopped = TRUE], {}, {}, NoSend, 0, 0,
-              {p[2] : p \in ps}, [r \in Remotes |-> IF r \in att THEN us(r) ELSE <<>>])
+    /\ Running
+    /\ LET ps == FwdPairs(Reg0)
+           us(r) == SelectSeq([l \in Lanes |-> <<"U", l>>], LAMBDA f : <<f[2], r>> \in ps)
+       IN Finish([k |-> "stop"], RemoveAll(Reg0), [Same EXCEPT !.stopped = TRUE], {}, {}, NoSend, 0, 0,
+                 {p[2] : p \in ps}, [r \in Remotes |-> IF r \in att THEN us(r) ELSE <<>>])
 
-NextW == /\ ~stopped
-         /\ \/ \E l \in Lanes : W_Lane(l) \/ W_Broadcast(l) \/ W_Command(l) \/ W_LaneFailed(l)
-            \/ \E l \in Lanes, r \in Remotes : W_Link(r, l) \/ W_Unlink(r, l) \/ W_EventTo(l, r)
-            \/ \E r \in Remotes : W_Attach(r) \/ W_Unknown(r) \/ W_Close(r) \/ W_Prune(r)
-            \/ W_Stop
+NextW == \/ \E l \in Lanes : W_Lane(l) \/ W_Broadcast(l) \/ W_Command(l) \/ W_LaneFailed(l)
+         \/ \E l \in Lanes, r \in Remotes : W_Link(r, l) \/ W_Unlink(r, l) \/ W_EventTo(l, r)
+         \/ \E r \in Remotes : W_Attach(r) \/ W_Unknown(r) \/ W_Close(r) \/ W_Prune(r)
+         \/ W_Stop
 
 -----------------------------------------------------------------------------
 Init == /\ fwd = [l \in Lanes |-> NoF] /\ bwd = [r \in Remotes |-> NoB] /\ total = 0
@@ -449,7 +459,7 @@ Init == /\ fwd = [l \in Lanes |-> NoF] /\ bwd = [r \in Remotes |-> NoB] /\ total
         /\ linked = {} /\ gone = {} /\ lost = {} /\ ph = {}
         /\ lastAct = [k |-> "init"] /\ pexp = [k |-> "init"]
 
-Next == IF Level = "K" THEN NextK ELSE NextW
+Next == NextK \/ NextW
 Spec == Init /\ [][Next]_vars
 
 -----------------------------------------------------------------------------
